@@ -158,22 +158,24 @@ def run(ctx, rep):
     # ---- R13.4 ---------------------------------------------------------------------------------
     cl = F.fn('builtins::call_length')
     found = {}
+    from rules.unsafe_inv import tag_facts
+    BYTE_LEN = ('core::str::<impl str>::len', 'alloc::string::String::len', '::as_bytes', 'str>::bytes', '::bytes')
     for p in AbsInt(F, cl, max_paths=5000).run():
-        vs = [c[1] for c in p.constraints if c[0][0] == 'variant' and c[0][2] == 'object::Type']
         r = simp(p.env.get('_0'))
-        if p.exit == 'return' and r and r[0] == 'agg' and r[2] == 'Ok' and vs:
-            val = deref(p.env, r[3][0])
-            unit = '?'
-            for st_ in subtrees(val):
-                if st_[0] == 'call' and (st_[1].endswith('::len') or st_[1].endswith('::count')):
-                    inner = show(deref(p.env, deref(p.env, st_[2][0])))
-                    src = ' '.join(c[1] for c in p.calls)
-                    if st_[1].endswith('::count') and 'chars' in inner:
-                        unit = 'characters'
-                    elif 'Vec' in st_[1] and 'as_vec' in inner + src:
-                        unit = 'elements'
-                    else:
-                        unit = 'bytes'
+        vs = sorted({ty for o_, ty in tag_facts(p)})
+        if p.exit == 'return' and r and r[0] == 'agg' and r[2] == 'Ok' and len(vs) == 1:
+            names = [c[1] for c in p.calls]
+            src = ' '.join(names)
+            if any(any(n.endswith(b_) or b_ in n for b_ in BYTE_LEN) for n in names):
+                unit = 'bytes'
+            elif any(n.endswith('::chars') for n in names) and (any(n.endswith('::count') for n in names) or any(n.endswith(('Iterator>::next', 'Iterator::next')) for n in names)):
+                unit = 'characters'     # chars().count(), or a loop that takes one step per character
+            elif 'object::Object::as_vec' in names and any(n.endswith('Vec::<T, A>::len') or n.endswith('[T]>::len') for n in names):
+                unit = 'elements'
+            else:
+                unit = '?'
+            if found.get(vs[0], unit) != unit:
+                unit = 'mixed'
             found[vs[0]] = unit
     rep.ob(found.get('String') == 'characters', 'R13.4', cl.path, 'string length unit', 'lengte of a string counts %s' % found.get('String'), cl.loc())
     rep.ob(found.get('Array') == 'elements', 'R13.4', cl.path, 'array length unit', 'lengte of an array counts %s' % found.get('Array'), cl.loc())
